@@ -185,7 +185,7 @@ func assignProps(p *Prog, encs []*Enc) {
 						set[pr] = true
 					}
 				}
-			case "inv-init", "inv-preserve", "cand", "decreases", "cover", "typeinv", "typeinv-new":
+			case "inv-init", "inv-preserve", "cand", "decreases", "cover", "typeinv", "typeinv-new", "pure":
 				for pr := range claimedIn[e.name] {
 					set[pr] = true
 				}
@@ -312,12 +312,15 @@ func cmdCheck(args []string) {
 	for _, l := range res.lines {
 		fmt.Println(l)
 	}
+	if len(res.violations) > 0 {
+		if res.toolError != "" {
+			fmt.Fprintln(os.Stderr, "TOOL ERROR (in addition to the violations):", res.toolError)
+		}
+		os.Exit(1)
+	}
 	if res.toolError != "" {
 		fmt.Fprintln(os.Stderr, "TOOL ERROR:", res.toolError)
 		os.Exit(2)
-	}
-	if len(res.violations) > 0 {
-		os.Exit(1)
 	}
 	fmt.Printf("OK property=%s tier=%s obligations=%d discharged=%d known=%d undecided=%d functions=%d wall=%.1fs\n",
 		prop, tier, len(res.claimed), res.discharged, len(res.known), len(res.undecided), len(res.funcs), res.wall)
